@@ -197,6 +197,12 @@ func (r *Run) Finish(level string) int {
 	for k, v := range r.counters {
 		r.cov[k] = v
 	}
+	if _, ok := r.cov["traces_validated_against_impl"]; !ok {
+		r.cov["traces_validated_against_impl"] = 0
+	}
+	if _, ok := r.cov["evaluations"]; !ok {
+		r.cov["evaluations"] = r.counters["real_calls"]
+	}
 	if len(r.samples) > 0 {
 		r.cov["samples"] = r.samples
 	}
